@@ -71,9 +71,18 @@ def body_listing(name, depth1, check=True):
     mweb.fresh_world({name: b"xa", "z.ics": b"xz"}, {})
     app = mweb.make_app()
     r = mweb.call(app, "PROPFIND", mweb.CAL + "/", headers=[("Depth", "1" if depth1 else "0")],
-                  xml=mweb.propfind_body("{DAV:}getetag", "{DAV:}resourcetype"), prefix=prefix, wsgi=wsgi)
+                  xml=mweb.propfind_body("{DAV:}getetag", "{DAV:}resourcetype", "{DAV:}current-user-principal"),
+                  prefix=prefix, wsgi=wsgi)
     if r.kind != "multistatus":
         return (False, "no-multistatus")
+    # an href in a property VALUE addresses the resource it names: current-user-principal -> the principal
+    for s in r.statuses:
+        cup = mweb.prop_el(s, "{DAV:}current-user-principal")
+        if cup is not None:
+            for hel in cup.iter("{DAV:}href"):
+                pj = deref(hel.text, prefix)
+                if pj is None or _names_of(app, pj) != ("collection", "/user"):
+                    return (False, "principal-href")
     hrefs = [Wd.create_href(s.href).text for s in r.statuses]  # exactly what Status.aselement() emits
     want = {("collection", mweb.CAL)}
     if depth1:
